@@ -12,9 +12,9 @@ EXPLANATION = ("C03: trexp/trexp2/rodrigues/trlog and the class methods Exp/log/
                "the closed-form exponential (Rodrigues / V-matrix), log with theta*u, and both round trips entrywise.")
 BOUNDS = ("exp: unit axis fully symbolic (sphere constraint), theta in stated sub-ranges of [0, 2pi]; log: axes from the D grid "
           "(listed in harness/common.py AXES), theta symbolic in [0, pi] split into [0,1e-3], [1e-3, pi-1e-3], [pi-1e-3, pi]; "
-          "translations |t_i| <= 1e3; 2-D: scipy.linalg.logm is not encodable -> trlog2 only on its short-cut path")
+          "translations |t_i| <= 1e3; 2-D: scipy.linalg.logm replaced by a closed-form model of its contract for proved SO(2)/SE(2) arguments, |theta| <= 3.1")
 ASSUMPTIONS = ["oracle for exp: Rodrigues formula I + sin(t) K + (1-cos t) K^2 and V = t I + (1-cos t) K + (t - sin t) K^2 (closed form of the series)",
-               "scipy.linalg.logm (trlog2) is outside the encoding"]
+               "scipy.linalg.logm (trlog2): modelled by the closed-form principal logarithm of a planar rotation / rigid motion (validated against LAPACK by translator validation)"]
 TIMEOUT = {'quick': 10, 'thorough': 120}
 WALL_BUDGET = {'quick': 400, 'thorough': 3000}
 
@@ -259,3 +259,46 @@ for _ax, _where in (('z', 'pi'), ('x', 'pi'), ('z', 'identity'), ('x', 'identity
         w = base.vex(L)
         h.true('rotation magnitude <= pi (+1e-6)', nsq(w) <= (math.pi + 1e-6) ** 2)
         h.eq('exp(log R) = R', base.trexp(L), R, tol=1e-6)
+
+
+# ----------------------------------------------------------------------------- planar logarithm (scipy.linalg.logm modelled by its contract)
+
+LOG2_RANGES = {'small': (-0.5, 0.5), 'mid': (0.4, 2.0), 'neg-mid': (-2.0, -0.4), 'large': (1.9, 3.1), 'neg-large': (-3.1, -1.9)}
+
+for _rn, (_lo, _hi) in LOG2_RANGES.items():
+    @claim(f'log2-so2:{_rn}', tier='thorough' if _rn.startswith('neg') else 'quick')
+    def _(h, lo=_lo, hi=_hi):
+        """trlog2 of a planar rotation: the so(2) matrix of the angle; exp(log R) = R; twist form"""
+        a = h.angle('a', lo, hi)
+        R = h.arr(rot2_ref(h, a))
+        L = base.trlog2(R, check=False)
+        h.eq('log R = skew(a)', L, [[0, -a], [a, 0]], tol=1e-9)
+        h.eq('twist form', np.asarray(base.trlog2(R, check=False, twist=True)).ravel(), [a], tol=1e-9)
+        h.eq('exp(log R) = R', base.trexp2(L), R, tol=1e-9)
+        h.eq('SO2.log', SO2(R, check=False).log(), [[0, -a], [a, 0]], tol=1e-9)
+
+    @claim(f'log2-se2:{_rn}', tier='thorough' if _rn.startswith('neg') else 'quick')
+    def _(h, lo=_lo, hi=_hi):
+        """trlog2 of a planar rigid motion: exp(log T) = T, log(exp(S)) = S"""
+        a = h.angle('a', lo, hi)
+        t = h.vec('t', 2, -1e3, 1e3)
+        T = hom(h, rot2_ref(h, a), t)
+        L = base.trlog2(T, check=False)
+        sc = 1 + nsq(t)
+        h.eq('rotational part of the log', L[1, 0], a, tol=1e-9)
+        h.eq('structure', [L[0, 0], L[1, 1], L[2, 0], L[2, 1], L[2, 2], L[0, 1] + L[1, 0]], [0, 0, 0, 0, 0, 0], tol=1e-12)
+        h.eq('exp(log T) = T', base.trexp2(L), T, tol=1e-9, scale=sc)
+        tw = np.asarray(base.trlog2(T, check=False, twist=True)).ravel()
+        h.eq('twist form = vexa(log)', tw, [L[0, 2], L[1, 2], L[1, 0]], tol=1e-12, scale=sc)
+        h.eq('SE2.log', SE2(T, check=False).log(), L, tol=1e-12, scale=sc)
+        h.eq('Twist2(SE2).exp', Twist2(SE2(T, check=False)).exp().A, T, tol=1e-9, scale=sc)
+
+
+@claim('log2-exp2-roundtrip')
+def _(h):
+    """log(exp(S)) = S for planar twists with |theta| < pi"""
+    w = h.angle('w', -3.1, 3.1)
+    v = h.vec('v', 2, -1e3, 1e3)
+    S = h.arr([v[0], v[1], w])
+    T = base.trexp2(S)
+    h.eq('log(exp(S)) = S', np.asarray(base.trlog2(T, check=False, twist=True)).ravel(), S, tol=1e-9, scale=1 + nsq(v))
